@@ -1,6 +1,7 @@
 import Soa.Model.Exec
 import Soa.Model.Zip
 import Soa.Model.Derive
+import Soa.Model.Surface
 open Soa Soa.Exec
 
 /-- line-protocol driver: reads scenarios (`shape …` line, then one operation per line) from
@@ -47,12 +48,22 @@ partial def deriveLoop (h : IO.FS.Stream) : IO Unit := do
   IO.println (Soa.Derive.deriveLine line)
   deriveLoop h
 
+/-- `surface` mode: loan-calculus verdicts and the auto-trait table -/
+partial def surfaceLoop (h : IO.FS.Stream) : IO Unit := do
+  let line ← h.getLine
+  if line.isEmpty then return ()
+  IO.println (Soa.Surface.surfaceLine line)
+  surfaceLoop h
+
 def main (args : List String) : IO Unit := do
   if args == ["zip"] then
     zipLoop (← IO.getStdin)
     return ()
   if args == ["derive"] then
     deriveLoop (← IO.getStdin)
+    return ()
+  if args == ["surface"] then
+    surfaceLoop (← IO.getStdin)
     return ()
   let prof : IdxIR.Prof := if args == ["release"] then .release else .debug
   loop prof (← IO.getStdin) none 0
